@@ -24,12 +24,38 @@ def snapshot(m):
     return (bytes(m.payload), m.identity, list(d.items()), str(m), repr(m), bytes(m.serialize()), m.ismsm, sorted(k for k in m.__dict__ if not k.startswith("_")))
 
 
+def build(p, lm, source):
+    """the same message obtained through the different entry points (the statement covers every message)"""
+    import io
+
+    from pyrtcm import RTCMMessage, RTCMReader
+
+    from pv import framing
+    from pv.doubles import ScriptedSocket
+
+    if source == "static":
+        return RTCMReader.parse(framing.build_frame(p), labelmsm=lm)
+    if source == "reader-file":
+        return next(iter(RTCMReader(io.BytesIO(framing.build_frame(p)), labelmsm=lm, quitonerror=2)))[1]
+    if source == "reader-socket":
+        f = framing.build_frame(p)
+        sock = ScriptedSocket([f[: len(f) // 2], f[len(f) // 2 :], "close"])
+        try:
+            return next(iter(RTCMReader(sock, labelmsm=lm, quitonerror=2, bufsize=64)))[1]
+        finally:
+            sock.close()
+    return RTCMMessage(payload=p, labelmsm=lm)
+
+
+AUG = {bytes: b"\x00", int: 1, float: 1.5, str: "x", bool: True}
+
+
 def o_setattr(case):
     from pyrtcm import RTCMMessage
     from pyrtcm.exceptions import RTCMMessageError
 
     p = bytes.fromhex(case["payload"])
-    m = RTCMMessage(payload=p, labelmsm=case.get("labelmsm", 1))
+    m = build(p, case.get("labelmsm", 1), case.get("source", "ctor"))
     before = snapshot(m)
     names = list(m.__dict__)
     touched = []
@@ -50,6 +76,22 @@ def o_setattr(case):
             raise Fail("wrong-exception", f"setattr({name!r}, {val!r}) on {before[1]} raised {type(e).__name__}: {e}") from e
         else:
             raise Fail("assignment-accepted", f"setattr({name!r}, {val!r}) on a {before[1]} message did not raise")
+        if case.get("direct") and name.isidentifier() and (not name.startswith("_") or name == "_payload") and hasattr(m, name):
+            # augmented assignment is an assignment attempt too: m.name += v must raise and change nothing
+            cur = getattr(m, name)
+            inc = next((v for t, v in AUG.items() if type(cur) is t), None)
+            if isinstance(cur, (bytes, bytearray)):
+                inc = b"\x00"
+            if inc is not None:
+                try:
+                    exec(f"m.{name} += inc", {"m": m, "inc": inc})  # pylint: disable=exec-used
+                except RTCMMessageError:
+                    pass
+                except Exception as e:  # pylint: disable=broad-except
+                    raise Fail("wrong-exception", f"m.{name} += {inc!r} raised {type(e).__name__}: {e}") from e
+                else:
+                    raise Fail("assignment-accepted", f"m.{name} += {inc!r} on a {before[1]} message did not raise")
+                touched.append(name)
         if case.get("direct") and name.isidentifier() and not name.startswith("__"):
             try:
                 exec(f"m.{name} = val", {"m": m, "val": val})  # pylint: disable=exec-used
@@ -72,6 +114,7 @@ def o_setattr(case):
         cls.append("touch-private")
     if any(t in ("payload", "identity", "ismsm") for t in touched):
         cls.append("touch-property")
+    cls.append("source-" + case.get("source", "ctor"))
     return Res(nontrivial=derived or private, classes=cls, evals=len(case["ops"]))
 
 
@@ -85,7 +128,13 @@ def s_setattr(draw, tier):
     else:
         c = {"payload": draw(gen.unknown_payloads("small")).hex()}
     ops = draw(st.lists(st.tuples(st.integers(-len(FRESH), 400), st.integers(0, len(VALUES) - 1)), min_size=1, max_size=12))
-    return {"payload": c["payload"], "labelmsm": draw(st.sampled_from([1, 2])), "ops": [list(o) for o in ops], "direct": draw(st.booleans())}
+    return {
+        "payload": c["payload"],
+        "labelmsm": draw(st.sampled_from([1, 2])),
+        "ops": [list(o) for o in ops],
+        "direct": draw(st.booleans()),
+        "source": draw(st.sampled_from(["ctor", "ctor", "static", "reader-file", "reader-socket"])),
+    }
 
 
 def _short(c):
@@ -96,5 +145,5 @@ def _short(c):
 
 
 SUBS = [
-    Sub("setattr_sequences", o_setattr, strategy=s_setattr, examples=(200, 4000), rule="touches a derived MSM attribute or a private name", need={"msm": 1, "stub": 1, "touch-private": 1, "touch-derived": 1, "touch-property": 1}, sample=_short),
+    Sub("setattr_sequences", o_setattr, strategy=s_setattr, examples=(200, 4000), rule="touches a derived MSM attribute or a private name", need={"msm": 1, "stub": 1, "touch-private": 1, "touch-derived": 1, "touch-property": 1, "source-reader-socket": 1}, sample=_short),
 ]
